@@ -494,6 +494,16 @@ class EnvSession:
                 r.trace.append(f"   step raised {type(e).__name__}: {str(e)[:120]}")
                 st = "err rejected"
                 o["exc"] = f"{type(e).__name__}: {str(e)[:80]}"
+                if ("does not belong" in str(e) and self.case.get("retry_refused") and not int(self.case.get("delay", 0))
+                        and not int(self.case.get("latency", 0))):
+                    # the caller retries with the very same object (with no delay and no latency a refused step leaves
+                    # nothing behind, so the retry is refused in exactly the same way)
+                    try:
+                        self.env.step(action)
+                        r.fail("out-of-space-action-executed", retry="the same object handed over again", action=str(op[1])[:80],
+                               clause="an action outside the declared action space is never executed")
+                    except Exception:  # noqa
+                        r.tags.add("refused-object-retried")
             rtol = Fraction(1, 10**9) * max(abs(self.deposit), 1) * 10 if self.case.get("reward") == "pnl" else Fraction(1, 10**8)
             r.op(line, st, rtol if st.startswith("ok") else 0)
             o.update(status=st.split()[0] + ("" if st.startswith("ok") else " " + st.split()[1]), action=op[1] if len(op) > 1 else None,
@@ -501,6 +511,22 @@ class EnvSession:
                      done_flag=bool(self.env._done))
         else:
             raise ValueError(op)
+        if self.case.get("resend_last") and kind != "reset" and len(self.env.broker.track_record):
+            # the caller sends the broker another request stamped like the last recorded one (a retry): it needs no
+            # trade (every held contract targeted, a threshold of 1000 %) and is refused as a duplicate; the refusal
+            # leaves the record as it was
+            try:
+                from tradingenv.broker.rebalancing import Rebalancing
+
+                brk = self.env.broker
+                last = brk.track_record[-1]
+                held = [c for c, q in brk.holdings_quantity.items() if q != 0 and c.symbol != "USD"]
+                brk.rebalance(Rebalancing(contracts=held, allocation=[0.5] * len(held), margin=10.0, time=last.time))
+                r.fail("duplicate-time-stamp-accepted", clause="exactly one entry per executed decision, in strictly increasing time order")
+            except ValueError:
+                r.tags.add("refused-duplicate-request")
+            except Exception:  # noqa
+                pass
         if self.case.get("read_frames") and kind != "reset":
             # a progress log / live dashboard reads the track record's frames while the episode is still running
             trk = self.env.broker.track_record
@@ -714,3 +740,82 @@ def small_scope_episodes():
                             case["ops"] = [["reset", None, start]] + [["step", ["1/2"]] for _ in range(nsteps)]
                             out.append(case)
     return out
+
+
+# ---------------------------------------------------------------------- nanosecond stamps (implementation only)
+def gen_ns_case(rng, latency_ns=0):
+    """Timesteps and quotes given as pandas Timestamps at nanosecond resolution (datetime cannot carry them): grid points
+    with a sub-microsecond part, quotes stamped exactly on a grid point and 400 ns .. 3 us after one. The model's time
+    unit is the microsecond, so these cases are judged by the oracle alone."""
+    t0 = 1_551_693_600_000_000_000 + rng.choice([0, 500, 999])          # 2019-03-04 10:00:00 (+ a sub-microsecond part)
+    bar = rng.choice([10_000, 60_000_000_000])                            # 10 us or one minute, in ns
+    n = rng.randint(4, 7)
+    grid = [t0 + i * bar for i in range(n)]
+    quotes, px = [], 100.0
+    for g in grid:
+        px = round(px * rng.choice([0.97, 1.02, 1.05]), 4)
+        quotes.append((g, px))
+        if g != grid[-1]:
+            off = rng.choice([400, 999, 1000, 2000, 3000]) if not latency_ns else rng.choice([1000, 2000, 2000, 3000])
+            px = round(px * rng.choice([0.9, 1.1, 1.2]), 4)
+            quotes.append((g + off, px))
+    return dict(kind="ns", grid_ns=grid, quotes=quotes, latency_ns=latency_ns)
+
+
+def run_ns_case(case):
+    """-> list of records (grid point, clock in ns, mid after the step, execution price of the step or None)"""
+    import numpy as np
+    import pandas as pd
+    from tradingenv.contracts import ETF
+    from tradingenv.env import TradingEnv
+    from tradingenv.events import EventNBBO
+    from tradingenv.spaces import BoxPortfolio
+    from tradingenv.transmitter import Transmitter
+
+    import warnings
+
+    warnings.filterwarnings("ignore", message="Discarding nonzero nanoseconds")   # the track record's own conversion
+    c = ETF("S0")
+    tx = Transmitter([pd.Timestamp(t) for t in case["grid_ns"]])
+    tx.add_events([EventNBBO(pd.Timestamp(t), c, p, p) for t, p in case["quotes"]])
+    env = TradingEnv(action_space=BoxPortfolio([c], 0.0, 1.0), transmitter=tx, initial_cash=1000.0,
+                     latency=case["latency_ns"] / 1e9, steps_delay=0)
+    out = []
+    env.reset()
+    out.append((case["grid_ns"][0], pd.Timestamp(env.now()).value, float(env.exchange[c].mid_price), None))
+    w = 0.25
+    for g in case["grid_ns"][1:]:
+        w = 0.75 - w if w != 0.25 else 0.5
+        _, _, done, info = env.step(np.array([w]))
+        px = None
+        reb = info.get("_rebalancing")
+        if reb is not None and reb.trades:
+            px = float(reb.trades[0].acq_price)
+        out.append((g, pd.Timestamp(env.now()).value, float(env.exchange[c].mid_price), px))
+        if done:
+            break
+    return out
+
+
+def judge_ns_case(r, case, recs, exec_prices=False):
+    """the book after the step that lands on grid point g shows the last quote stamped <= g (nanoseconds compared
+    exactly), the clock is the stamp of that event; with `exec_prices`, the trades of the step that lands on g were priced
+    at the last quote stamped <= previous grid point + latency"""
+    qs = sorted(case["quotes"])
+    prev = None
+    for g, now, mid, px in recs:
+        seen = [(t, p) for t, p in qs if t <= g]
+        if seen and (mid != seen[-1][1] or now != seen[-1][0]):
+            later = [t for t, p in qs if p == mid and t > g]
+            r.fail("ns-delivery", grid_point=g, clock=now, mid=mid, expected_mid=seen[-1][1], expected_clock=seen[-1][0],
+                   shows_a_quote_stamped_after_the_step=bool(later),
+                   clause="an event is delivered at the first timestep at or after its timestamp / nothing stamped after t is visible at t")
+            break
+        if exec_prices and px is not None and prev is not None:
+            ok = [(t, p) for t, p in qs if t <= prev + case["latency_ns"]]
+            if ok and px != ok[-1][1]:
+                r.fail("execution-price", grid_point=g, price=px, expected=ok[-1][1], latency_ns=case["latency_ns"],
+                       clause="priced at the last quotes stamped <= t + latency")
+                break
+        prev = g
+    r.tags.add("nanosecond-stamps")
